@@ -387,11 +387,11 @@ def judge_class(case):
 
 
 def _mk(alg):
-    return Sub("class_" + alg, judge_class, class_case(alg), quick=40, thorough=1500,
+    return Sub("class_" + alg, judge_class, class_case(alg), quick=40, thorough=3000,
                rule=f"{alg} through its setup: every cell of the result tables judged against the recomputed unfiltered solution and the criteria")
 
 
 SUBS = [
-    Sub("functions", judge_functions, fun_case(), quick=300, thorough=10000,
+    Sub("functions", judge_functions, fun_case(), quick=300, thorough=20000,
         rule="HC_conj / HC_damp / HC_phi_comp / HC_cov / applymask on generated tables: mask true iff criterion holds, NaN exactly where false, inputs not mutated"),
 ] + [_mk(a) for a in CLASSES]
